@@ -48,6 +48,27 @@ an operation with the changed code. Rows for rounds 1-3 were produced before the
 improvements (C04-1 now yields a failing input through the mutation search).
 
 %s
+**Systematic single-site mutants.** Independently of the hand-made changes, `tools/mutgen.py`
+applied classical mutation operators (relational and arithmetic operator swaps, `&&`/`||`,
+off-by-one constants, `min`/`max`, `trim` variants, `is_alphanumeric`/`is_alphabetic`,
+`break`/`continue`, character constants, ...) to every non-test line of `/repo/src`: 402 mutants.
+47 do not compile and 249 are killed by the pinned 156-test suite. The 106 that compile under
+both feature sets and pass the suite were run against the checks (the checks for the
+touched file first, then all others, stopping at the first concrete failing input; raw data
+in `notes/sysmut/results.json`):
+57 are reported with a concrete, minimised failing input by a property check (C03 14, C18 9,
+C01 6, C10 6, C12 5, C07 4, C15 3, ...); 13 change behaviour outside every property and are
+reported only as a broken correspondence (9 mutants of the `PartialEq` impls, seen by the
+`api` op; 2 of the line-number cache that only matter for three or more line widths, outside
+C03's precondition, seen by `walg`; 1 that changes only the pointer identity of an empty
+line; 1 that made `unfill("")` report width 1 — a gap in C15's conclusion check, which now
+compares the returned width with the widest line and reports it with the input `""`);
+the remaining 36 are equivalent mutants (13 capacity hints; 6 variants of the
+byte-length-shortcut conditions, unobservable by theorem C05; conditions whose extra case
+is unreachable or idempotent, e.g. `NonEmptyLines` re-skipping the `\n` it did not consume;
+constants added to every entry of the cost matrix; one line of the `hyphenation` feature,
+which is not compiled). No surviving mutant that violates a property went unreported.
+
 **Negative controls.** %d behaviour-preserving refactorings (`seeded/benign-*/`; three of them
 substantial rewrites by a sub-agent: the escape-sequence skipper as an explicit state machine,
 `break_apart` with manual byte offsets, the Unicode word finder with merged filters, the
